@@ -171,7 +171,10 @@ macro_rules! per_n { ($($N:literal)*) => {
             let mut a = a0.clone();
             let mut log: Vec<i64> = vec![];
             let (lens_equal, mut verdict) = (al.len() == bl.len(), Ok(()));
-            let mut expect_eq = |got: &[[S; $N]], want: Vec<[S; $N]>| { if got != &want[..] { verdict = Err(format!("{:?}", flat(&want))); } };
+            let mut expect_eq = |got: &[[S; $N]], want: Vec<[S; $N]>| { if got != &want[..] {
+                verdict = Err(if want.len() <= 16 { format!("{:?}", flat(&want)) } else {
+                    let i = (0..want.len()).find(|&i| got.get(i) != Some(&want[i])).unwrap_or(0);
+                    format!("frame {} of {}: {:?} (observed {:?})", i, want.len(), flat(&want[i..i + 1]), got.get(i).map(|f| flat(&[*f]))) }); } };
             let panicked = match name {
                 "equilibrium" => { dasp_slice::equilibrium(&mut a[..]);
                     expect_eq(&a, a0.iter().map(|_| <[S; $N] as Frame>::EQUILIBRIUM).collect()); false }
@@ -239,13 +242,12 @@ fn main() {
     }
 }
 
-fn run_view(a: &Args) {
-    let mut st = Stream::new(&a.out, "view");
-    let mut rng = Rng::new(a.seed, "view");
-    let reps = if a.thorough() { 4 } else { 1 };
-    for fmt in FMTS { for n in 1..=32usize { for len in 0..=(3 * n + 2) { for kind in ["shared", "mut"] { for rep in 0..(if len % n == 0 { 4 * reps } else { reps }) {
+fn trunc(mut s: String) -> String { if s.len() > 400 { let mut k = 400; while !s.is_char_boundary(k) { k -= 1; } s.truncate(k); s.push_str(" …"); } s }
+
+/// one sample->frame view case (shared or mut) on `buf[base..base+len]`
+fn view_one(st: &mut Stream, rng: &mut Rng, fmt: &str, n: usize, len: usize, kind: &str, base: usize) {
+    {
         let (lo, hi) = label_range(fmt);
-        let base = if rep == 0 { (len + n) % 3 } else { rng.usize_below(4) };
         let pad = rng.usize_below(3);
         let labels: Vec<i64> = (0..base + len + pad).map(|_| rng.range(lo, hi)).collect();
         let mut writes: Vec<(usize, usize, i64)> = vec![];
@@ -263,7 +265,7 @@ fn run_view(a: &Args) {
         };
         // ---- the property, directly
         let divides = len % n == 0;
-        let case = format!("{} {}", fmt, op);
+        let case = trunc(format!("{} {}", fmt, op));
         match &out {
             None => { if divides { st.oracle_fail("viewing samples as N-channel frames must succeed when N divides L", &case, "some", "none"); } else { st.oracle_ok(1); } }
             Some(v) => {
@@ -279,11 +281,33 @@ fn run_view(a: &Args) {
                 else { st.oracle_ok(1); }
             }
         }
-        st.count(if out.is_some() { "some" } else { "none" });
+        st.count(&format!("{}{}", if out.is_some() { "some" } else { "none" }, if len > 200 { "_large" } else { "" }));
         st.case(&op, &obs, len > 0 && n > 1, 1);
+    }
+}
+
+fn run_view(a: &Args) {
+    let mut st = Stream::new(&a.out, "view");
+    let mut rng = Rng::new(a.seed, "view");
+    let reps = if a.thorough() { 4 } else { 1 };
+    for fmt in FMTS { for n in 1..=32usize { for len in 0..=(3 * n + 2) { for kind in ["shared", "mut"] { for rep in 0..(if len % n == 0 { 4 * reps } else { reps }) {
+        let base = if rep == 0 { (len + n) % 3 } else { rng.usize_below(4) };
+        view_one(&mut st, &mut rng, fmt, n, len, kind, base);
     } } } } }
+    // large views: L in the thousands, divisible (rounded down to a multiple of N) and as given
+    for n in 1..=32usize {
+        let sizes: Vec<usize> = if a.thorough() { BIG.to_vec() } else { vec![*rng.pick(&BIG[..6]), rng.range(1026, 5000) as usize] };
+        for size in sizes { for len in [size / n * n, size] { for kind in ["shared", "mut"] {
+            if !a.thorough() && rng.chance(1, 2) { continue; }
+            let (fmt, base) = (*rng.pick(&FMTS), rng.usize_below(4));
+            view_one(&mut st, &mut rng, fmt, n, len, kind, base);
+        } } }
+    }
     // frames -> samples -> frames
-    for fmt in FMTS { for n in 1..=32usize { for f in 0..=4usize { for base_frame in 0..=1usize { for mutable in [false, true] {
+    for fmt in FMTS { for n in 1..=32usize {
+      // large frame slices for one format per N
+      let fl: Vec<usize> = (0..=4usize).chain(if fmt == FMTS[n % 6] { vec![1025 / n + 1, 4099 / n] } else { vec![] }).collect();
+      for f in fl { for base_frame in 0..=1usize { for mutable in [false, true] {
         let (lo, hi) = label_range(fmt);
         let total = base_frame + f + rng.usize_below(2);
         let labels: Vec<i64> = (0..total * n).map(|_| rng.range(lo, hi)).collect();
@@ -291,17 +315,19 @@ fn run_view(a: &Args) {
         let o: FViewOut = with_fmt!(fmt, S => fview::<S>(n, &labels, base_frame, f, mutable));
         let back = match o.back { Some((fr, off)) => format!("some {} @{}", fr, off), None => "none".into() };
         let obs = format!("@{} {} | {} | back {}", o.off, o.len, join(&o.samples, ","), back);
-        let case = format!("{} {}", fmt, op);
+        let case = trunc(format!("{} {}", fmt, op));
         let want: Vec<i64> = labels[base_frame * n..(base_frame + f) * n].to_vec();
         if o.off != (base_frame * n) as isize || o.len != f * n || o.samples != want {
             st.oracle_fail("viewing frames as samples: same memory, F*N samples, sample i*N+c = channel c of frame i", &case, &format!("@{} {} {}", base_frame * n, f * n, join(&want, ",")), &obs);
         } else if o.back != Some((f, (base_frame * n) as isize)) {
             st.oracle_fail("viewing the samples as frames again must give the original frame slice", &case, &format!("some {} @{}", f, base_frame * n), &back);
         } else { st.oracle_ok(1); }
-        st.count("fview");
+        st.count(if f > 100 { "fview_large" } else { "fview" });
         st.case(&op, &obs, f > 0 && n > 1, 1);
-    } } } } }
-    st.exhaustive = !a.thorough() || true;
+      } } }
+    } }
+    st.exhaustive = false;
+    st.note("plus large views: per N seeded lengths from {1023,1024,1025,2047,2500,4099} and 1026..5000 (quick) / all of those and 10000 (thorough), both rounded down to a multiple of N and as given; ");
     st.note("every N in 1..=32 x every L in 0..=3N+2 x {shared, mut} x {u8,i16,I24,f32,f64,i64}: the (N, L, kind, format) space is enumerated completely; base offsets, padding, labels and writes are seeded random");
     st.finish();
 }
@@ -310,7 +336,15 @@ fn run_boxed(a: &Args) {
     let mut st = Stream::new(&a.out, "boxed");
     let mut rng = Rng::new(a.seed, "boxed");
     let step = |s: &Step| format!("allocs={} dlive={}", s.allocs, s.dlive);
-    for fmt in FMTS { for n in 1..=32usize { for len in 0..=(3 * n + 2) { for _rep in 0..(if len % n == 0 { 4 } else { 1 }) {
+    let thorough = a.thorough();
+    for fmt in FMTS { for n in 1..=32usize {
+      // large boxes (divisible and not) for one format per N (quick: every fourth N)
+      let mut lens: Vec<usize> = (0..=(3 * n + 2)).collect();
+      if fmt == FMTS[n % 6] && (thorough || n % 4 == 1) {
+          lens.push(BIG[n % 6] / n * n); lens.push(BIG[(n + 1) % 6] / n * n + (if n > 1 { 1 } else { 0 }));
+          if thorough { lens.push(10_000 / n * n); lens.push(10_000 / n * n + n - 1); }
+      }
+      for len in lens { for _rep in 0..(if len % n == 0 && len < 200 { 4 } else { 1 }) {
         let (lo, hi) = label_range(fmt);
         let labels: Vec<i64> = (0..len).map(|_| rng.range(lo, hi)).collect();
         let es: usize = with_fmt!(fmt, S => std::mem::size_of::<S>());
@@ -321,7 +355,7 @@ fn run_boxed(a: &Args) {
             Some((frames, off, c1, s2, boff, blen, c2)) => format!("some {} @{} {} | {} | back @{} {} {} leaked={} | {}",
                 frames, off, step(&o.first), frames_str(c1, n), boff, blen, step(s2), o.leaked, join(c2, ",")),
         };
-        let case = format!("{} {}", fmt, op);
+        let case = trunc(format!("{} {}", fmt, op));
         let bytes = (len * es) as isize;
         let divides = len % n == 0;
         match &o.res {
@@ -340,9 +374,10 @@ fn run_boxed(a: &Args) {
                 else { st.oracle_ok(1); }
             }
         }
-        st.count(if o.res.is_some() { "box_some" } else { "box_none_released" });
+        st.count(&format!("{}{}", if o.res.is_some() { "box_some" } else { "box_none_released" }, if len > 200 { "_large" } else { "" }));
         st.case(&op, &obs, len > 0, 1);
-    } } } }
+      } }
+    } }
     for fmt in FMTS { for n in 1..=32usize { for f in 0..=4usize {
         let (lo, hi) = label_range(fmt);
         let labels: Vec<i64> = (0..f * n).map(|_| rng.range(lo, hi)).collect();
@@ -360,42 +395,83 @@ fn run_boxed(a: &Args) {
         st.count("fbox");
         st.case(&op, &obs, f > 0, 1);
     } } }
-    st.exhaustive = true;
-    st.note("every N in 1..=32 x every L in 0..=3N+2 x 6 formats (boxed samples -> frames -> samples) and every F in 0..=4 (boxed frames -> samples -> frames); labels seeded random");
+    st.exhaustive = false;
+    st.note("plus large boxes (thousands of samples, divisible and not) for one format per N; every N in 1..=32 x every L in 0..=3N+2 x 6 formats (boxed samples -> frames -> samples) and every F in 0..=4 (boxed frames -> samples -> frames); labels seeded random");
     st.finish();
 }
+
+/// one `ops` case; `through_model` = also a correspondence line (otherwise native oracle only)
+fn ops_one(st: &mut Stream, rng: &mut Rng, name: &str, fmt: &str, n: usize, la: usize, lb: usize, through_model: bool) {
+    // label domains on which the frame operations used are exact in every format (stated in props/C10.json)
+    let (alo, ahi, blo, bhi) = match (name, fmt) {
+        ("zipmap", _) => (0, 50, 0, 50), ("map", _) => (0, 100, 0, 0),
+        ("add", "u8") | ("addamp", "u8") => (110, 146, -8, 8),
+        ("add", _) | ("addamp", _) => (-500, 500, -8, 8),
+        (_, "u8") => (0, 255, 0, 255), _ => (-1000, 1000, -1000, 1000) };
+    let al: Vec<i64> = (0..la * n).map(|_| rng.range(alo, ahi)).collect();
+    let bl: Vec<i64> = (0..lb * n).map(|_| rng.range(blo, bhi)).collect();
+    let amp: Vec<i64> = if name == "addamp" { (0..n).map(|_| *rng.pick(&[0i64, 1, 2, -1])).collect() } else { vec![] };
+    let (out, log, verdict) = with_fmt!(fmt, S => ops_case::<S>(name, n, &al, &bl, &amp));
+    let big = la.max(lb) > 16;
+    let head = format!("ops {} {} {} {} {}", name, fmt, n, la, lb);
+    let short = |v: &[i64]| if v.len() > 24 { format!("{} … ({} labels)", spaced(&v[..24]), v.len()) } else { spaced(v) };
+    match verdict {
+        Ok(()) => st.oracle_ok(1),
+        Err(want) => {
+            let obs = match &out { OpOut::Ok(v) => format!("ok | {}", if big { "(see expected)".to_string() } else { frames_str(v, n) }),
+                                   OpOut::Panic(v) => format!("panic | {}", if big { "(see expected)".to_string() } else { frames_str(v, n) }) };
+            st.oracle_fail(&format!("{}: must equal the element-wise frame operation, and refuse a length mismatch by panicking before modifying anything", name),
+                &format!("{} | {} | {} | {}", head, short(&al), short(&bl), spaced(&amp)), &want, &obs) }
+    }
+    st.count(&format!("{}_{}{}", name, if matches!(out, OpOut::Panic(_)) { "panic" } else { "ok" }, if big { "_large" } else { "" }));
+    if !through_model { st.count("large_native_oracle_only"); return; }
+    let op = format!("{} | {} | {} | {}", head, spaced(&al), spaced(&bl), spaced(&amp));
+    let mut obs = match &out { OpOut::Ok(v) => format!("ok | {}", frames_str(v, n)), OpOut::Panic(v) => format!("panic | {}", frames_str(v, n)) };
+    if name == "map" { obs.push_str(&format!(" | calls {}", frames_str(&log, n))); }
+    if name == "zipmap" { obs.push_str(&format!(" | calls {}", frames_str(&log, 2 * n))); }
+    st.case(&op, &obs, la > 0, 1);
+}
+
+/// lengths in the thousands that are not multiples of typical block sizes (and some that are)
+const BIG: [usize; 7] = [1023, 1024, 1025, 2047, 2500, 4099, 10_000];
 
 fn run_ops(a: &Args) {
     let mut st = Stream::new(&a.out, "ops");
     let mut rng = Rng::new(a.seed, "ops");
     let ns: Vec<usize> = if a.thorough() { (1..=32).collect() } else { vec![1, 2, 3, 4, 8, 32] };
-    for fmt in FMTS { for &n in ns.iter() { for name in ["equilibrium", "map", "zipmap", "write", "add", "addamp"] {
+    const OPS: [&str; 6] = ["equilibrium", "map", "zipmap", "write", "add", "addamp"];
+    for fmt in FMTS { for &n in ns.iter() { for name in OPS {
         let two = name != "equilibrium" && name != "map";
         for la in 0..=6usize { for lb in 0..=(if two { 6usize } else { 0 }) { for _rep in 0..(if la == lb || !two { 4 } else { 1 }) {
-            // label domains on which the frame operations used are exact in every format (stated in props/C10.json)
-            let (alo, ahi, blo, bhi) = match (name, fmt) {
-                ("zipmap", _) => (0, 50, 0, 50), ("map", _) => (0, 100, 0, 0),
-                ("add", "u8") | ("addamp", "u8") => (110, 146, -8, 8),
-                ("add", _) | ("addamp", _) => (-500, 500, -8, 8),
-                (_, "u8") => (0, 255, 0, 255), _ => (-1000, 1000, -1000, 1000) };
-            let al: Vec<i64> = (0..la * n).map(|_| rng.range(alo, ahi)).collect();
-            let bl: Vec<i64> = (0..lb * n).map(|_| rng.range(blo, bhi)).collect();
-            let amp: Vec<i64> = if name == "addamp" { (0..n).map(|_| *rng.pick(&[0i64, 1, 2, -1])).collect() } else { vec![] };
-            let op = format!("ops {} {} {} {} {} | {} | {} | {}", name, fmt, n, la, lb, spaced(&al), spaced(&bl), spaced(&amp));
-            let (out, log, verdict) = with_fmt!(fmt, S => ops_case::<S>(name, n, &al, &bl, &amp));
-            let mut obs = match &out { OpOut::Ok(v) => format!("ok | {}", frames_str(v, n)), OpOut::Panic(v) => format!("panic | {}", frames_str(v, n)) };
-            if name == "map" { obs.push_str(&format!(" | calls {}", frames_str(&log, n))); }
-            if name == "zipmap" { obs.push_str(&format!(" | calls {}", frames_str(&log, 2 * n))); }
-            match verdict {
-                Ok(()) => st.oracle_ok(1),
-                Err(want) => st.oracle_fail(&format!("{}: must equal the element-wise frame operation, and refuse a length mismatch by panicking before modifying anything", name),
-                    &format!("{}", op), &want, &obs),
-            }
-            st.count(&format!("{}_{}", name, if matches!(out, OpOut::Panic(_)) { "panic" } else { "ok" }));
-            st.case(&op, &obs, la > 0, 1);
+            ops_one(&mut st, &mut rng, name, fmt, n, la, lb, true);
         } } }
     } } }
+    // ---- large slices: every operation (the closures / frame operations used are NOT idempotent:
+    // 2x+1, 3x+y, x+y, x+y*amp) at lengths in the thousands, compared element-wise with the per-element
+    // frame operation; natively for every format and N in {1,2,4}, through the model for seeded picks
+    let mut lens: Vec<usize> = BIG.to_vec();
+    for _ in 0..(if a.thorough() { 6 } else { 1 }) { lens.push(rng.range(1026, 20_000) as usize); }
+    for name in OPS {
+        let two = name != "equilibrium" && name != "map";
+        for &len in lens.iter() {
+            for fmt in FMTS { for n in [1usize, 2, 4] { ops_one(&mut st, &mut rng, name, fmt, n, len, if two { len } else { 0 }, false); } }
+            // through the model: quick up to 4099 frames (the list model is quadratic), thorough all
+            if len <= 4099 || a.thorough() {
+                for _ in 0..(if a.thorough() { 2 } else { 1 }) {
+                    let (fmt, n) = (*rng.pick(&FMTS), *rng.pick(&[1usize, 2, 3]));
+                    ops_one(&mut st, &mut rng, name, fmt, n, len, if two { len } else { 0 }, true);
+                }
+            }
+        }
+        // large length mismatches: panic, destination untouched
+        if two {
+            for (la, lb) in [(1025usize, 1024usize), (2500, 2499), (1024, 4099)] {
+                let fmt = *rng.pick(&FMTS);
+                ops_one(&mut st, &mut rng, name, fmt, 2, la, lb, la.max(lb) <= 2500);
+            }
+        }
+    }
     st.exhaustive = false;
-    st.note("all length pairs 0..=6 x 0..=6 for the two-slice operations, lengths 0..=6 for the one-slice ones; N in {1,2,3,4,8,32} (quick) or 1..=32 (thorough); labels seeded random in a domain where the label arithmetic of the model (2x+1, 3x+y, x+y, x+y*amp) is exact in the format");
+    st.note("all length pairs 0..=6 x 0..=6 for the two-slice operations, lengths 0..=6 for the one-slice ones; N in {1,2,3,4,8,32} (quick) or 1..=32 (thorough); plus large slices (1023, 1024, 1025, 2047, 2500, 4099, 10000 and seeded lengths up to 20000 frames) for every operation with non-idempotent closures / frame operations, natively for all formats x N in {1,2,4} and through the model for seeded picks; labels seeded random in a domain where the label arithmetic of the model (2x+1, 3x+y, x+y, x+y*amp) is exact in the format");
     st.finish();
 }
